@@ -346,8 +346,25 @@ int32_t jls_twr_signal_def(struct jls_twr_s * self, const struct jls_signal_def_
     return rv;
 }
 
+// STRING and JSON payloads are measured, as the synchronous writer does:
+// callers pass data_size 0 for them.
+static int32_t text_size(enum jls_storage_type_e storage_type, const uint8_t * data, uint32_t * data_size) {
+    if ((storage_type == JLS_STORAGE_TYPE_STRING) || (storage_type == JLS_STORAGE_TYPE_JSON)) {
+        if (!data) {
+            return JLS_ERROR_PARAMETER_INVALID;
+        }
+        size_t sz = strlen((const char *) data) + 1;
+        if (sz > MSG_PAYLOAD_MAX) {
+            return JLS_ERROR_TOO_BIG;
+        }
+        *data_size = (uint32_t) sz;
+    }
+    return 0;
+}
+
 int32_t jls_twr_user_data(struct jls_twr_s * self, uint16_t chunk_meta,
                           enum jls_storage_type_e storage_type, const uint8_t * data, uint32_t data_size) {
+    ROE(text_size(storage_type, data, &data_size));
     struct msg_header_s hdr = {
             .msg_type = MSG_USER_DATA,
             .h = {
@@ -420,6 +437,7 @@ int32_t jls_twr_annotation(struct jls_twr_s * self, uint16_t signal_id, int64_t 
                            uint8_t group_id,
                            enum jls_storage_type_e storage_type,
                            const uint8_t * data, uint32_t data_size) {
+    ROE(text_size(storage_type, data, &data_size));
     struct msg_header_s hdr = {
             .msg_type = MSG_ANNOTATION,
             .h = {
